@@ -146,6 +146,17 @@ def resolved_oracle(case, line):
     Nx, Ny = nx, ny
     tol = 0.51
     margin = float(f[17])
+    # the four interval sets after the merge are printed between N and nsub=: Zk[pos,posm](x,xm)...
+    zt = [x for x in t[ni + 1:] if x.startswith('Z')]
+    zero_width = []
+    for z in zt:
+        try:
+            a_, b_ = z[z.index('[') + 1:z.index(']')].split(',')
+            if float(a_) == float(b_):
+                zero_width.append(z[:2])
+        except ValueError:
+            pass
+    ni = ni + len(zt)
     boxes = [tuple(float(v) for v in b.split(',')) for b in t[ni + 2:]]
     nsub = int(t[ni + 1].split('=')[1])
     main = boxes[0]
@@ -157,10 +168,25 @@ def resolved_oracle(case, line):
         bxi, byi, bxa, bya, bsi, bdi, bsa, bda = (float(v) for v in nbx.split(','))
         ov = (min(Tx + txa, Nx + bxa) - max(Tx + txi, Nx + bxi), min(Ty + tya, Ny + bya) - max(Ty + tyi, Ny + byi),
               min(Tx + Ty + tsa, Nx + Ny + bsa) - max(Tx + Ty + tsi, Nx + Ny + bsi), min(Tx - Ty + tda, Nx - Ny + bda) - max(Tx - Ty + tdi, Nx - Ny + bdi))
+        # the same test in the frame it belongs to (the neighbour's position is relative to the un-offset anchor, so it has to be compared with
+        # the limit rectangle itself, not with the rectangle re-based by the offset): F32
+        reach_frame = (Nx + main[2] + margin >= lbx and Nx + main[0] - margin <= ltx) or (Ny + main[3] + margin >= lby and Ny + main[1] - margin <= lty)
+        if all(o > tol for o in ov) and not reach and reach_frame and (ox != 0 or oy != 0):
+            return ('known-frame', 'the neighbour overlaps the target\'s octabox by (%.1f, %.1f, %.1f, %.1f) and lies inside the limit rectangle, but ShiftCollider::mergeSlot compares its position (relative to the '
+                                   'un-offset anchor) with the limit rectangle re-based by the accumulated offset (%g,%g): it is skipped and the glyph is reported resolved at shift (%g, %g) (neighbour at (%g,%g), limit [(%g,%g),(%g,%g)])'
+                                   % (ov[0], ov[1], ov[2], ov[3], ox, oy, shx, shy, nx, ny, lbx, lby, ltx, lty))
         if all(o > tol for o in ov) and not reach:
             return ('known-reach', 'the neighbour overlaps the target\'s octabox by (%.1f, %.1f, %.1f, %.1f) but fails ShiftCollider::mergeSlot\'s reach test, which compares the neighbour\'s box with the limit rectangle '
                                    'of origin movement and ignores the extent of the target\'s own box: nothing is excluded and the glyph is reported resolved at shift (%g, %g) (neighbour at (%g,%g), limit [(%g,%g),(%g,%g)])'
                                    % (ov[0], ov[1], ov[2], ov[3], shx, shy, nx, ny, lbx, lby, ltx, lty))
+        if all(o > tol for o in ov) and zero_width:
+            return ('known-zero', 'the interval set of axis %s has zero width (the offset leaves no room along that axis): Zones::remove cannot exclude its only position (the recorded zero-width finding), so the axis offers '
+                                  'shift 0 at no cost and the glyph is reported resolved at shift (%g, %g) although its octabox overlaps the neighbour\'s by (%.1f, %.1f, %.1f, %.1f) (offset (%g,%g), limit [(%g,%g),(%g,%g)])'
+                                  % (','.join(zero_width), shx, shy, ov[0], ov[1], ov[2], ov[3], ox, oy, lbx, lby, ltx, lty))
+        if all(o > tol for o in ov) and not (int(f[6]) & 1) and ox != 0:
+            return ('known-ltr', 'left to right with accumulated offset (%g,%g): ShiftCollider::initSlot overwrites the re-based lower x bound with -limit.tr.x (dropping the offset), the per-axis range test then discards the '
+                                 'neighbour and the glyph is reported resolved at shift (%g, %g) although its octabox overlaps the neighbour\'s by (%.1f, %.1f, %.1f, %.1f) (neighbour at (%g,%g), x-symmetric limit [(%g,%g),(%g,%g)])'
+                                 % (ox, oy, shx, shy, ov[0], ov[1], ov[2], ov[3], nx, ny, lbx, lby, ltx, lty))
         if all(o > tol for o in ov):
             return ('violation', 'ShiftCollider::resolve reports the glyph resolved at shift (%g, %g) yet its octabox overlaps the neighbour\'s by (%.1f, %.1f, %.1f, %.1f) on the x, y, sum and diff axes '
                                  '(offset (%g,%g), neighbour at (%g,%g))' % (shx, shy, ov[0], ov[1], ov[2], ov[3], ox, oy, nx, ny))
@@ -254,11 +280,13 @@ def run(chk):
         lim = rng.choice((100, 200, 400, 1000))
         lbx, lby, ltx, lty = -lim, -rng.choice((lim, lim // 2, 0)), lim, rng.choice((lim, lim // 2))
         ox, oy = (0, 0) if rng.random() < 0.5 else (rng.randrange(lbx // 2, ltx // 2 + 1), rng.randrange(lby // 2, lty // 2 + 1))
+        if rng.random() < 0.15:                              # an offset near the edge of the limit rectangle (left by earlier collision passes)
+            ox, oy = rng.choice((lbx, ltx, (ltx * 5) // 6, (lbx * 5) // 6, 0)), rng.choice((lby, lty, (lty * 5) // 6, 0))
         sx, sy = (0, 0) if rng.random() < 0.6 else (rng.randrange((lbx - ox) // 2, (ltx - ox) // 2 + 1), rng.randrange((lby - oy) // 2, (lty - oy) // 2 + 1))
         a, b = rng.sample(range(4), 2)
         arab = [c for c in S.repertoire(vlib.REPO, font) if 0x620 <= c <= 0x6FF]
         txt = [rng.choice(arab) for _ in range(5)] if arab and rng.random() < 0.7 else texts[font]      # many glyph pairs: with and without sub-boxes
-        rcases.append('r%d coll2 %s %s %d %d %d %d %d %d %d %d %d %d %d %d %d %s %d %d' % (k, font, ''.join('%08x' % c for c in txt), a, b, rng.choice((1, 1, 3)),
+        rcases.append('r%d coll2 %s %s %d %d %d %d %d %d %d %d %d %d %d %d %d %s %d %d' % (k, font, ''.join('%08x' % c for c in txt), a, b, rng.choice((1, 1, 3, 0, 2)),      # right to left; left to right (the limits here are x-symmetric)
                       lbx, lby, ltx, lty, ox, oy, sx, sy, rng.randrange(-900, 901), rng.randrange(-900, 901), rng.choice(('0', '10', '50')), rng.randrange(2), rng.randrange(2)))
     _, rl, _ = vlib.run_pair(None, w, rcases, timeout=2400)
     nres = 0
@@ -276,6 +304,12 @@ def run(chk):
             chk.violation('c17:resolved:%s' % ' '.join(c.split()[4:19]), bad[1], dict(case=c, got=l[:1200]))
         if bad[0] == 'known-reach':
             chk.violation('c17:reach-test-ignores-target-extent', bad[1], dict(case=c, got=l[:1200]))
+        if bad[0] == 'known-zero':
+            chk.violation('c17:zero-width-zone-keeps-excluded-position', bad[1], dict(case=c, got=l[:1200]))
+        if bad[0] == 'known-frame':
+            chk.violation('c17:reach-test-in-offset-frame', bad[1], dict(case=c, got=l[:1200]))
+        if bad[0] == 'known-ltr':
+            chk.violation('c17:ltr-lower-x-bound-drops-offset', bad[1], dict(case=c, got=l[:1200]))
     chk.notes.append('resolved-verdict clause: %d arrangements reported resolved and checked against the octabox separation oracle' % nres)
     nshift = 0
     for c, l in zip(ecases, el):
@@ -308,7 +342,7 @@ def replay(chk, obj):
         print(case[:300]); print(' impl :', (il[0] or '')[:800])
         r = resolved_oracle(case, il[0] or '')
         print(' oracle:', r)
-        return 1 if r and r[0] in ('violation', 'abort', 'known-reach') else 0
+        return 1 if r and r[0] in ('violation', 'abort', 'known-reach', 'known-frame', 'known-ltr', 'known-zero') else 0
     if case.split()[1] == 'coll':
         w = engine.build(chk)
         _, il, _ = vlib.run_pair(None, w, [case], shards=1)
